@@ -82,6 +82,10 @@ pub fn run(out: &mut Out, thorough: bool, seed: u64, _extra: &[String]) {
             let (name, line, item) = match res { Some(x) => x, None => continue };
             steps += 1;
             let cls = format!("{}-s{}-l{}", name, item.ct.size(), s.ctx.get_context_data(item.ct.parms_id()).unwrap().chain_index());
+            if name == "relinearize" && n <= 16 {
+                let src = line.split(" | ").nth(1).unwrap_or("").to_string();
+                out.case(&format!("ks_op relin 0 {} | {} | {} | {}", fl(&key_qs(&s)), src, kskey_str(&s, relin.key(2)), s.ct_case(&item.ct)), &format!("ks-{}", cls), || "ok".to_string());
+            }
             if name == "rescale" { out.case(&line, &cls, || "ok".to_string()); } else { out.case(&format!("ct_op {} {}", name, line), &cls, || "ok".to_string()); }
             // decoded slots against the complex shadow program (tolerance: relative 2^-9 of the magnitudes involved + absolute 2^-9; a labelled test)
             let dec = enc.decode_new(&s.decryptor.decrypt_new(&item.ct));
